@@ -19,6 +19,12 @@ CLAIMED = {
  "C11": dict(tech="TLA+ HASH_SLOT definition (env/Slot.tla, CRC16 via Bitwise) + TLC-checked one-pass scan algorithm (SlotScan.tla) + TLC trace validation (TraceSlot.tla) of observations from every real slot computation site",
              text="Exhaustive over all strings of length <= 6 (quick) / 7 (thorough) over the alphabet {'{','}',a,b}: TLC proves the scan algorithm equal to the definition and writes the strings; the driver evaluates redis.KeyToSlot, cluster.GetSlot, slot-filter decisions and bisync slot tags on them and on seeded random byte strings; TLC recomputes HASH_SLOT for each observation.",
              note="Definition transcribed from Redis cluster.c; CRC16/XMODEM check value asserted in the spec; long keys sampled.", ref="4 C11"),
+ "C12": dict(tech="TLA+ RESP offset arithmetic (env/Resp.tla) validated against the concrete encoding by TLC (RespCases.tla) + TLC trace validation (TraceResp.tla) of the real Decoder / parseAofCommand / Writer",
+             text="TLC builds every command sequence (<=2 commands x <=3 arguments, lengths crossing the digit boundaries, heartbeats) and checks that the per-command end offsets partition the byte stream; each is run through the real Decoder under fragmented reads and bufio sizes 16/64/4096, through parseAofCommand (offset attached to the forwarded command) and through Writer->Decoder; seeded random streams with arguments up to MBs. TLC judges command count, argument lengths, byte-identity flag and every reported offset.",
+             note="Argument bytes compared in Go (patterns containing CR LF, RESP type bytes, 0x00, 0xFF); TLC judges lengths/offsets. Offsets < 2^31.", ref="4 C12"),
+ "C15": dict(tech="TLA+ lease spec (Lease.tla + env/LeaseStore.tla) model-checked with TLC; TLC-generated operation sequences replayed on the real redisElection against a lease store that interprets the received Lua text; TLC trace validation (TraceLease.tla)",
+             text="TLC explores all interleavings of campaign/renew/resign by 3 contenders with ticks, lost replies and failed calls (at most one acting leader, acting implies holder, holder ceases within one lease period); every operation sequence up to the history bound plus seeded random sequences is executed on the real election code; each reply, the store's holder and remaining time, and the leadership told to instances are judged against the intended compare-and-set semantics.",
+             note="Mini Lua interpreter limited to the scripts' constructs (else exit 2); 1 s virtual clock ticks; etcd election not covered.", ref="4 C15"),
  "C09": dict(tech="TLC on Replay.tla (TxnMode) + TLC trace validation of real transactional runs with crash enumeration",
              text="For every source MULTI/EXEC group the target must apply all of its data commands in one EXEC block that also carries a position >= the group's EXEC; no stored or returned resume position may lie inside a group, at any crash point.",
              note="Standalone target with real MULTI/EXEC semantics modelled in TLA+.", ref="4 C09"),
@@ -30,10 +36,8 @@ PENDING = {
  "C05": "check not built yet (Cache.tla, DESIGN 4 C05)",
  "C06": "check not built yet (Resync.tla, DESIGN 4 C06)",
  "C08": "check not built yet (CacheCrash.tla, DESIGN 4 C08)",
- "C12": "check not built yet (Resp.tla, DESIGN 4 C12)",
  "C13": "check not built yet (Bisync.tla, DESIGN 4 C13)",
  "C14": "check not built yet (BisyncFrontier.tla, DESIGN 4 C14)",
- "C15": "check not built yet (Lease.tla, DESIGN 4 C15)",
  "C16": "check not built yet (Replica.tla, DESIGN 4 C16)",
  "C17": "check not built yet (CkptMaint.tla, DESIGN 4 C17)",
  "C18": "check not built yet (Bisync.tla unit builder, DESIGN 4 C18)",
